@@ -10,6 +10,7 @@ import os
 import subprocess
 import sys
 
+import c15_extra as cx
 import framework as fw
 import graphs as gr
 import sx as sxmod
@@ -21,9 +22,17 @@ SPOT_N = 10
 RULE = ("for each graph-algorithm property module present, a seeded sample of its own quick-tier correspondence cases, each re-run under the "
         "label families bigint/int257/tuple/frozenset/str(run-time built)/char x shuffled node+edge insertion order x PYTHONHASHSEED in {0,1,2} "
         "(thorough: 8 seeds, 2 orders), each hash seed in its own interpreter; expected = the inner property's proved model on the canonical graph; "
+        "plus the public algorithms no other property reaches (harness/c15_extra.py), tied to the extracted transcription of what the code does (C15 demands invariance, not a meaning): "
+        "is_definite_collider / is_definite_noncollider on all mark graphs with <= 3 nodes x all 27 node triples and random 4-6 node ones; is_node_common_cause on all DAGs with <= 3 nodes x every node x every "
+        "exclusion set, as DiGraph (children) and as ADMG (descendants), exclusion set as list/tuple/set/frozenset/None; set_nodes_as_latent_confounders on all ADMGs with <= 3 nodes x every node list of size <= 2 "
+        "and random 4-7 node graphs, as DiGraph and ADMG, exact result graph (nodes, directed, bidirected, undirected edges) or RuntimeError, node list as list/tuple/set/frozenset, argument integrity; "
+        "all_vstructures on all DAGs with <= 3 nodes (thorough: 4) and random 4-6 node DAGs, triples and as_edges; every case under the label families of graphs.LABEL_FAMILIES (incl. identity-hashed objects) "
+        "x 3-4 insertion orders, expected = the extracted Coq model of C15/ExtraModel.v on the abstract graph. proper_possibly_directed_path has NO Coq model: metamorphic stream over all ADMGs with <= 3 nodes "
+        "x pairs of disjoint node sets (X, Y) and random 4-5 node ADMGs / PAGs, expected = the paths (or exception class) obtained with one-character labels, mapped through the renaming; "
         "plus executable cross-checks of the renaming theorems (oracle on g vs on rmap f g). distinct by (module, canonical inner case, family, order, seed); "
         "non-trivial by the inner module's own rule")
-EXHAUSTIVE = {}
+EXHAUSTIVE = {"quick": "extension stream only: all mark graphs / DAGs / ADMGs with <= 3 nodes (every second 3-node mark graph, every third 3-node ADMG with bidirected edges) x all argument tuples",
+              "thorough": "extension stream only: all mark graphs (10 pair states) / DAGs / ADMGs with <= 3 nodes x all argument tuples; all DAGs with <= 4 nodes for all_vstructures"}
 TRUSTED = ["Python object identity, hashing and set iteration order are NOT modelled; the claim for the implementation rests on the sampled label families and hash seeds"]
 ASSUMPTIONS = ["inner property modules build their graphs through graphs.to_*(g, case) so that _lab/_order take effect"]
 LEVEL_TEXT = ("Unbounded Coq theorems: the separation spec (and its executable oracle) commutes with every one-to-one renaming and depends on node/edge lists only as sets "
@@ -41,6 +50,14 @@ LEVEL_TEXT = ("Unbounded Coq theorems: the separation spec (and its executable o
               "C06 inducing_model (= with the witness renamed), dag_to_mag (= rmap f of the result); C07 is_maximal, has_adc, valid_mag (=); C16 is_semi, semi_enum (path membership), poss_desc / poss_anc (= map f); "
               "C17 conn, pds_model; C18 updp_paths, disc_paths, spec_updp_dec, spec_disc_dec; C19 acy_model (commutes up to list order). "
               "Not stated: order-freedom of dag_to_mag_model (its edge list is built in list order; needs symmetry of the inducing-path test), the boolean oracles of C08/C09 completeness. "
+              "Extension to the algorithms no other property reaches (C15/ExtraModel.v, ExtraProofs.v, ExtraRefuted.v; 34 theorems *extra_*), all unbounded. The models TIED to the code transcribe what the code does and are proved "
+              "equivariant under every one-to-one renaming and independent of list order / duplicates: def_collider, noncollider_asis (the case analysis as coded), common_cause (DiGraph: children) and common_cause_mixed_asis "
+              "(ADMG: successors are descendants), latent_dg / latent_mx (set_nodes_as_latent_confounders as coded AFTER the order repair fixes/C15-latent-confounders.patch: successors joined pairwise, predecessors x successors, "
+              "removed end points put back; children/parents on a DiGraph, descendants/ancestors on an ADMG; result = rmap f of the result, or raises on both), vstructs / vstruct_edges. "
+              "Documentation only (not part of C15, nothing is checked against them): the textbook definitions def_noncollider_spec, common_cause_spec, latent_spec with model = definition theorems, and where the code deviates "
+              "from the textbook the witnesses extra_noncollider_asis_refuted, extra_common_cause_mixed_asis_refuted, extra_latent_asis_not_definition_refuted, extra_latent_asis_readds_latent_refuted. "
+              "The C15 defect proper: extra_latent_asis_order_refuted (the code before the repair, read in insertion order, gives different results for two insertion orders of one graph). "
+              "proper_possibly_directed_path: no Coq model, metamorphic correspondence only. "
               "For the implementation the property is decided by metamorphic correspondence: every sampled case of C01, C04-C12, C16-C19 "
               "is re-run under 6 label families x insertion orders x hash seeds and must still agree with the proved model of that property.")
 LEVEL_NOTE = ("CPython identity/interning/hash order cannot be expressed in Gallina; C15 is therefore a correspondence claim over sampled label families, not a theorem about the code. "
@@ -94,12 +111,11 @@ def gen_cases(tier, rng):
     # splatted into a %-format, iterated or unpacked on the error path either)
     for api in MISSING_APIS:
         yield {"kind": "missing", "api": api, "mod": "_missing", "hashseed": 0}
-    # library algorithms that no other property's API reaches (all_vstructures): the set of unshielded colliders of a DAG, under
-    # every label family and insertion order, against the one-line definition evaluated on the abstract graph
-    for i in range(60 if tier == "quick" else 600):
-        n = rng.randint(3, 6)
-        g = gr.random_kinds_graph(rng, n, gr.DAG_KINDS, p_edge=0.55)
-        yield {"kind": "vstruct", "mod": "_vstruct", "hashseed": 0, "g": g, "orders": [rng.randrange(10 ** 6) for _ in range(4)]}
+    # library algorithms that no other property's API reaches (is_definite_collider / is_definite_noncollider, is_node_common_cause,
+    # set_nodes_as_latent_confounders, all_vstructures): exhaustive small graphs x all argument tuples and random larger ones, under
+    # every label family and several insertion orders, against the extracted Coq model of C15/ExtraModel.v (harness/c15_extra.py)
+    for c in cx.gen_cases(tier, random.Random(rng.random())):
+        yield dict(c, mod="_extra", hashseed=0)
     # executable cross-check of the renaming theorems
     for i in range(40 if tier == "quick" else 400):
         n = rng.randint(2, 5)
@@ -169,29 +185,11 @@ def _missing_call(api, fam):
         return "exc:" + type(e).__name__
 
 
-def _vstruct_run(case):
-    from pywhy_graphs.algorithms import all_vstructures
-    g = case["g"]
-    D = set(map(tuple, g["D"]))
-    adj = lambda a, b: (a, b) in D or (b, a) in D  # noqa: E731
-    want_t = sorted({(min(a, b), c, max(a, b)) for (a, c) in D for (b, c2) in D if c2 == c and a != b and not adj(a, b)})
-    want_e = sorted({(a, c) for (a, c) in D for (b, c2) in D if c2 == c and a != b and not adj(a, b)})
-    bad = []
-    for fam in ["int"] + [f for f in FAMILIES if f not in ("obj",)]:
-        for o in case["orders"]:
-            G, lab, inv = gr.to_digraph(g, {"_lab": fam, "_order": o})
-            got_t = sorted({(min(inv(a), inv(b)), inv(c), max(inv(a), inv(b))) for a, c, b in all_vstructures(G)})
-            got_e = sorted({(inv(a), inv(c)) for a, c in all_vstructures(G, as_edges=True)})
-            if got_t != want_t or got_e != want_e:
-                bad.append([fam, o, [list(x) for x in got_t], [list(x) for x in got_e]])
-    return {"bad": bad[:3], "want": [list(x) for x in want_t]}
-
-
 def run_impl(case):
     if case["kind"] == "oracle":
         return {"oracle": True}
-    if case["kind"] == "vstruct":
-        return _vstruct_run(case)
+    if case["kind"] == "extra":
+        return cx.run_impl(case)
     if case["kind"] == "missing":
         return {"outcome": {fam: _missing_call(case["api"], fam) for fam in ["int"] + [f for f in FAMILIES if f != "obj"]}}
     w = _worker(case["hashseed"])
@@ -210,9 +208,19 @@ def custom_evaluate(cases, pool):
     for i, c in enumerate(cases):
         by_mod.setdefault(c["mod"] if c["kind"] != "oracle" else "_oracle", []).append(i)
     for name, idxs in by_mod.items():
-        if name in ("_missing", "_vstruct"):
+        if name == "_missing":
             for i in idxs:
                 sxs[i], model[i] = [0], {"missing": True}
+            continue
+        if name == "_extra":
+            for i in [i for i in idxs if cx.encode(cases[i]) is None]:      # metamorphic streams: no model call
+                sxs[i], model[i] = [0], {"metamorphic": True}
+            idxs = [i for i in idxs if cx.encode(cases[i]) is not None]
+            enc = [cx.encode(cases[i]) for i in idxs]
+            out = fw.run_model("C15", enc, pool)
+            for i, e, line in zip(idxs, enc, out):
+                sxs[i], lines[i] = e, line
+                model[i] = {"model_error": line} if line.startswith("!error") else json.loads(json.dumps(cx.decode(cases[i], sxmod.loads(line))))
             continue
         if name == "_oracle":
             enc = [[gr.enc(cases[i]["g"]), cases[i]["X"], cases[i]["Y"], cases[i]["Z"], cases[i]["table"]] for i in idxs]
@@ -235,10 +243,8 @@ def custom_evaluate(cases, pool):
 
 
 def compare(case, impl, model):
-    if case["kind"] == "vstruct":
-        if "exc" in impl:
-            return "all_vstructures:exception"
-        return None if not impl["bad"] else "all_vstructures:differs-from-definition-under-some-family/order"
+    if case["kind"] == "extra":
+        return cx.compare(case, impl, model)
     if case["kind"] == "missing":
         if "exc" in impl:
             return "missing-node:harness"
@@ -254,7 +260,9 @@ def compare(case, impl, model):
 
 
 def classify(case, impl, model):
-    if case["kind"] in ("oracle", "missing", "vstruct"):
+    if case["kind"] == "extra":
+        return cx.classify(case, impl, model)
+    if case["kind"] in ("oracle", "missing"):
         return None
     m = inner(case["mod"])
     k = getattr(m, "classify", lambda *a: None)(case["inner"], impl, model)
@@ -273,15 +281,17 @@ def known(ctx):
 
 
 def nontrivial(case, model):
-    if case["kind"] in ("oracle", "missing", "vstruct"):
+    if case["kind"] == "extra":
+        return cx.nontrivial(case, model)
+    if case["kind"] in ("oracle", "missing"):
         return True
     m = inner(case["mod"])
     return getattr(m, "nontrivial", lambda c, mo: True)(case["inner"], model)
 
 
 def key(case):
-    if case["kind"] == "vstruct":
-        return "vstruct:" + json.dumps(case["g"], sort_keys=True)
+    if case["kind"] == "extra":
+        return cx.key(case)
     if case["kind"] == "missing":
         return "missing:" + case["api"]
     if case["kind"] == "oracle":
@@ -290,7 +300,10 @@ def key(case):
 
 
 def shrink(case):
-    if case["kind"] in ("oracle", "missing", "vstruct"):
+    if case["kind"] == "extra":
+        yield from cx.shrink(case)
+        return
+    if case["kind"] in ("oracle", "missing"):
         return
     m = inner(case["mod"])
     if hasattr(m, "shrink"):
